@@ -151,7 +151,9 @@ impl ServerSession {
         self.bytes_received += bytes.len() as u64;
 
         if let Some(peer_ack_size) = self.peer_window_ack_size {
-            self.bytes_received_since_last_ack += bytes.len() as u32;
+            self.bytes_received_since_last_ack = self
+                .bytes_received_since_last_ack
+                .saturating_add(bytes.len() as u32);
             if self.bytes_received_since_last_ack >= peer_ack_size {
                 let ack_message = RtmpMessage::Acknowledgement {
                     sequence_number: self.bytes_received_since_last_ack,
